@@ -4,11 +4,9 @@ import CffiVerif.Model.ConstErr
 namespace CffiVerif.ConstErr
 open CffiVerif.DefineLiteral (pyInt inRange)
 
-theorem evalConst_err (tok : List Char) (h1 : tok ≠ []) (h2 : badRadixToken tok = false) (x : Exc)
+theorem evalConst_err (tok : List Char) (h1 : tok ≠ []) (x : Exc)
     (h : evalConst tok = .error x) : x = .cdefError := by
   unfold evalConst at h
-  unfold badRadixToken at h2
-  simp only [Bool.or_eq_false_iff, Bool.and_eq_false_iff] at h2
   split at h
   · exact absurd rfl h1
   · split at h
@@ -17,23 +15,13 @@ theorem evalConst_err (tok : List Char) (h1 : tok ≠ []) (h2 : badRadixToken to
       · cases h
       · split at h
         · split at h
-          · rename_i h16
-            split at h
-            · cases h
-            · rename_i hnone
-              rcases h2.1 with h' | h'
-              · rw [h16] at h'; cases h'
-              · rw [hnone] at h'; cases h'
+          · cases h
+          · cases h; rfl
+        · split at h
           · split at h
-            · rename_i h2b
-              split at h
-              · cases h
-              · rename_i hnone
-                rcases h2.2 with h' | h'
-                · rw [h2b] at h'; cases h'
-                · rw [hnone] at h'; cases h'
+            · cases h
             · cases h; rfl
-        · cases h; rfl
+          · cases h; rfl
     · split at h
       · cases h
       · split at h
@@ -92,7 +80,7 @@ theorem applyBin_err (lim : Nat) (op : String) (l r : Int) (x : Exc) (h : applyB
 theorem evalInt_err (lim : Nat) (env : Env) (e : Expr) (ht : TokensOk e) (hs : ShiftsOk lim env e) (x : Exc)
     (h : evalInt lim env e = .error x) : x = .cdefError ∨ x = .ffiError := by
   induction e with
-  | const tok => exact Or.inl (evalConst_err tok ht.1 ht.2 x h)
+  | const tok => exact Or.inl (evalConst_err tok ht x h)
   | unary op e ih =>
     simp only [evalInt] at h
     split at h
